@@ -57,6 +57,9 @@ def run(ctx):
             except CNF:
                 ctx.count("legs_not_found")
                 return None
+            except ArithmeticError:
+                ctx.count("legs_magnitude_arithmetic_error")  # float overflow on extreme prefixes, not a linearity question
+                return None
             if r.unit is not u:
                 ctx.violation("C05:wrong-unit", f"{q!r}.in_unit({u}) has unit {r.unit}", case)
                 return None
@@ -102,10 +105,10 @@ def run(ctx):
                 d = rel_diff(kab.magnitude, expect)
             except Exception:
                 d = 0
-            ctx.maxi("linearity_rel_diff", float(d))
+            ctx.maxi("linearity_rel_diff", core.sf(d))
             ctx.distinct(("linear", shapes[0], shapes[1], type(k).__name__), a is not b)
             if d > R12 * 100 and abs(expect) > Fraction(1, 10**280):
-                ctx.violation("C05:not-linear", f"conv({k!r}*{mag!r} {a} -> {b}) = {kab.magnitude!r} but k*conv = {float(expect)!r}", {**case, "k": repr(k)})
+                ctx.violation("C05:not-linear", f"conv({k!r}*{mag!r} {a} -> {b}) = {kab.magnitude!r} but k*conv = {core.sf(expect)!r}", {**case, "k": repr(k)})
         # round trip a -> b -> a
         width = 1
         r = orc.ratio(a, b)
@@ -116,10 +119,10 @@ def run(ctx):
         if back is not None and mag != 0:
             ctx.count("relations/round_trip")
             d = rel_diff(back.magnitude, mag)
-            ctx.maxi("round_trip_rel_diff", float(d))
+            ctx.maxi("round_trip_rel_diff", core.sf(d))
             ctx.distinct(("round", shapes[0], shapes[1]), a is not b)
             if d > tol:
-                ctx.violation("C05:round-trip", f"{mag!r} {a} -> {b} -> back = {back.magnitude!r} (rel diff {float(d):.3g}, tol {float(tol):.3g})", case)
+                ctx.violation("C05:round-trip", f"{mag!r} {a} -> {b} -> back = {back.magnitude!r} (rel diff {core.sf(d):.3g}, tol {core.sf(tol):.3g})", case)
         # via intermediate a -> c -> b
         ac = conv(q, c)
         if ac is not None:
@@ -130,10 +133,10 @@ def run(ctx):
                 w2 = (r2[1] / r2[0]) if r2 and r2[0] > 0 else 1
                 tol2 = Fraction(1, 100000) * (degree + orc.degree(c)) * 2 + (width - 1) * 2 + (w2 - 1) * 2
                 d = rel_diff(acb.magnitude, ab.magnitude)
-                ctx.maxi("via_intermediate_rel_diff", float(d))
+                ctx.maxi("via_intermediate_rel_diff", core.sf(d))
                 ctx.distinct(("via", shapes), a is not b and b is not c)
                 if d > tol2:
-                    ctx.violation("C05:route-dependent", f"{mag!r} {a} -> {c} -> {b} = {acb.magnitude!r} but direct = {ab.magnitude!r} (rel diff {float(d):.3g})", case)
+                    ctx.violation("C05:route-dependent", f"{mag!r} {a} -> {c} -> {b} = {acb.magnitude!r} but direct = {ab.magnitude!r} (rel diff {core.sf(d):.3g})", case)
                 if i % 400 == 5:
                     ctx.sample({"a": str(a), "c": str(c), "b": str(b), "mag": repr(mag), "direct": repr(ab.magnitude), "via_c": repr(acb.magnitude)})
     synthetic(ctx)
@@ -181,7 +184,7 @@ def synthetic(ctx):
                 ctx.count("synthetic/linearity")
                 x, kx = Fraction(model.dec_mag(r[0]["ok"]["mag"])), Fraction(model.dec_mag(r[1]["ok"]["mag"]))
                 if rel_diff(kx, Fraction(k) * x) > R12:
-                    ctx.violation("C05:not-linear:synthetic", f"synthetic: conv(k*q)={float(kx)!r}, k*conv(q)={float(Fraction(k) * x)!r}", case)
+                    ctx.violation("C05:not-linear:synthetic", f"synthetic: conv(k*q)={core.sf(kx)!r}, k*conv(q)={core.sf(Fraction(k) * x)!r}", case)
             if "ok" in r[2]:
                 ctx.count("synthetic/zero")
                 if model.dec_mag(r[2]["ok"]["mag"]) != 0:
@@ -195,10 +198,10 @@ def synthetic(ctx):
                 back = Fraction(model.dec_mag(r[4]["ok"][-1]))
                 ctx.distinct(("synthetic-round", tuple(sorted(e for _, e in a)), tuple(sorted(e for _, e in b))))
                 if rel_diff(back, m0) > R12:
-                    ctx.violation("C05:round-trip:synthetic", f"synthetic: {mag} -> ... -> {float(back)!r}", case)
+                    ctx.violation("C05:round-trip:synthetic", f"synthetic: {mag} -> ... -> {core.sf(back)!r}", case)
             if "ok" in r[5] and "ok" in r[0]:
                 ctx.count("synthetic/via_intermediate")
                 via = Fraction(model.dec_mag(r[5]["ok"][-1]))
                 direct = Fraction(model.dec_mag(r[0]["ok"]["mag"]))
                 if rel_diff(via, direct) > R12:
-                    ctx.violation("C05:route-dependent:synthetic", f"synthetic: via {float(via)!r} direct {float(direct)!r}", case)
+                    ctx.violation("C05:route-dependent:synthetic", f"synthetic: via {core.sf(via)!r} direct {core.sf(direct)!r}", case)
